@@ -184,6 +184,25 @@ theorem iterVals_shape (O : VecOps S R V) (cfg : ExpCfg R) (hc : cfg.isHermitian
   simp only [kStart, hc, if_true]
   omega
 
+/-- one iteration of `lanczos` and one of `krylov_exp_impl` took the same branch and agree on everything they share -/
+def IterAgree : LanOut S R V → StepOut S R V → Prop
+  | .done r, .done r' => r'.converged = true ∧ r'.iterationCount = r.iters ∧ r'.happyBreakdown = r.happy
+      ∧ r.T = sliceM r'.ghost.T r.qs.length ∧ r'.ghost.opCalls = r.opCalls
+  | .cont s, .cont s' => s = s'
+  | _, _ => False
+
+/-- **`lanczos`' loop body is `krylov_exp_impl`'s** (Hermitian branch, both tolerances equal): same branch taken, same ghost
+`T`, same iteration count and breakdown flag, same next state; `lanczos` additionally returns the vectors and the slice -/
+theorem lanIter_eq_expIter (O : VecOps S R V) (mexp : Nat → Mat S → Mat S) (tol : R) (maxDim : Nat) (n0 : R) (j : Nat)
+    (st : ExpSt S R V) :
+    IterAgree (lanIter O mexp tol maxDim j st) (expIter O mexp (lanCfg tol maxDim) n0 j st) := by
+  unfold lanIter expIter
+  simp only [show (lanCfg tol maxDim).expTol = tol from rfl]
+  split_ifs with hb he
+  · simp [IterAgree, breakdownResult]
+  · simp [IterAgree, convergedResult]
+  · simp [IterAgree]
+
 theorem lanIter_spec (O : VecOps S R V) (mexp : Nat → Mat S → Mat S) (tol : R) (maxDim : Nat) (j : Nat)
     (st : ExpSt S R V) (hlen : st.qs.length = j + 1) :
     match lanIter O mexp tol maxDim j st with
